@@ -317,7 +317,19 @@ func TestC19Store(t *testing.T) {
 
 				for _, n := range gen.SortedKeys(model.rels) {
 					if rapid.IntRange(0, 3).Draw(t, "keep-"+n) > 0 {
-						nt.Rels[n] = model.rels[n]
+						rel := model.rels[n]
+
+						// The same field (name and cardinality), pointing
+						// somewhere else: the stored IDs stay well-typed.
+						if rapid.IntRange(0, 3).Draw(t, "retarget-"+n) == 0 {
+							rel.ToType = rapid.SampledFrom([]string{"t", "u", "other"}).Draw(t, "totype")
+							rel.ToName = rapid.SampledFrom([]string{"", "inv", "back"}).Draw(t, "toname")
+							rel.FromOne = rapid.Bool().Draw(t, "fromone")
+							rel.FromType = rapid.SampledFrom([]string{"t", "", "renamed"}).Draw(t, "fromtype")
+							changed = true
+						}
+
+						nt.Rels[n] = rel
 					} else {
 						changed = true
 					}
